@@ -66,6 +66,14 @@ int snoopy_output_socketoutput (char const * const logMessage, char const * cons
         return SNOOPY_OUTPUT_GRACEFUL_DISCARD;
     }
 
+    /*
+     * A path that does not fit into a socket address cannot be connected to: fail, instead of sending
+     * the record to whoever listens at the first PATH_SIZE bytes of the configured path.
+     */
+    if (strlen(arg) > PATH_SIZE) {
+        return SNOOPY_OUTPUT_FAILURE;
+    }
+
 #if (defined(__GLIBC__) && (2 == __GLIBC__) && (__GLIBC_MINOR__ < 9))
     /* Prepare socket - non-blocking sockets are not supported on older glibc */
     if ((s = socket(AF_LOCAL, SOCK_DGRAM, 0)) == -1) {
